@@ -410,6 +410,10 @@ func (x *Engine) loopHeader(fr *Frame, li *loopInfo, st *State) {
 	} else if fr.top {
 		x.notes = append(x.notes, fmt.Sprintf("loop %d of %s has no invariant (true)", li.ord, fr.fn))
 	}
+	// vacuity guard: the havocked loop head must be reachable under the assumed invariants and frame axioms
+	if fr.top {
+		x.obls = append(x.obls, &Obl{Name: fmt.Sprintf("%s#cover[loop%d.head]", x.curFn, li.ord), Func: x.curFn, Kind: "cover", Label: "loop-head", Props: x.curProps, NScript: len(x.script), Goal: "false", Live: st.live, Text: "the loop head is reachable under the invariants", Expect: "sat"})
+	}
 	// range-index loops: 0 <= #i <= len is implied by construction; give it for free
 	for _, ins := range h.Instrs {
 		phi, ok := ins.(*ssa.Phi)
@@ -460,9 +464,6 @@ func (x *Engine) backEdge(fr *Frame, from, h *ssa.BasicBlock, st *State) {
 	}
 	env, hash := x.nameEnv(fr, h, ov)
 	pos := posOf(x.prog, from.Instrs[len(from.Instrs)-1].Pos())
-	// vacuity guard: the end of the loop body must be reachable under the assumed invariants
-	x.ordinals[fmt.Sprintf("loopcover%d", li.ord)]++
-	x.obls = append(x.obls, &Obl{Name: fmt.Sprintf("%s#cover[loop%d.body#%d]", x.curFn, li.ord, x.ordinals[fmt.Sprintf("loopcover%d", li.ord)]), Func: x.curFn, Kind: "cover", Label: "loop-body", Props: x.curProps, NScript: len(x.script), Goal: "false", Live: st.live, Text: "the end of the loop body is reachable", Expect: "sat"})
 	for i, c := range ls.Invs {
 		ev := &Eval{x: x, st: st, old: fr.entry, env: env, hash: hash, pkg: fr.fn.Pkg}
 		g := x.safeEvalBool(ev, c)
